@@ -456,13 +456,13 @@ func randCell(rng *rand.Rand, cv widther, maxw int) CellD {
 
 // fixDomain appends ops so that no glyph extends past the right edge (such a
 // cell has no correct rendering and is outside C01's domain).
-func fixDomain(m *Rec, ops []Op) []Op {
+func fixDomain(m *sim, ops []Op) []Op {
 	for r := range m.Cells {
 		for c := range m.Cells[r] {
 			if x := m.Cells[r][c]; x.Hd == c && !m.Fits(c, x.Cell) {
 				cell := CellD{G: "#", W: 1, S: x.Cell.S}
 				op := Op{K: "set", C: c, R: r, Cell: &cell}
-				m.Apply(op)
+				m.apply(op)
 				ops = append(ops, op)
 			}
 		}
@@ -473,11 +473,21 @@ func fixDomain(m *Rec, ops []Op) []Op {
 // sim mirrors Run's bookkeeping so generators can keep scenarios in domain.
 type sim struct {
 	*Rec
+	// grid: the last cell stored at each column, whatever covered it since. Drivers that still keep this older
+	// record and lay a row out from the left (C12) share the histories generated here: a glyph that reaches
+	// past the edge in that reading is kept out as well
+	grid   [][]CellD
 	vis    bool
 	cr, cc int
 }
 
-func newSim(cols, rows int, w widther) *sim { return &sim{Rec: NewRec(cols, rows, w)} }
+func newSim(cols, rows int, w widther) *sim {
+	m := &sim{Rec: NewRec(cols, rows, w), grid: make([][]CellD, rows)}
+	for r := range m.grid {
+		m.grid[r] = make([]CellD, cols)
+	}
+	return m
+}
 
 func (m *sim) apply(op Op) {
 	switch op.K {
@@ -487,7 +497,62 @@ func (m *sim) apply(op Op) {
 		m.vis = false
 	default:
 		m.Rec.Apply(op)
+		m.applyGrid(op)
 	}
+}
+
+func (m *sim) applyGrid(op Op) {
+	all := func(c CellD) {
+		for r := range m.grid {
+			for x := range m.grid[r] {
+				m.grid[r][x] = c
+			}
+		}
+	}
+	switch op.K {
+	case "set":
+		if m.in(op.C, op.R) {
+			m.grid[op.R][op.C] = *op.Cell
+		}
+	case "style":
+		if m.in(op.C, op.R) {
+			m.grid[op.R][op.C].S = *op.Style
+		}
+	case "fill":
+		all(*op.Cell)
+	case "clear":
+		all(CellD{G: " ", W: 1})
+	case "print":
+		c, r := 0, 0
+		for _, ch := range op.Text {
+			if r >= m.Rows {
+				break
+			}
+			m.grid[r][c] = CellD{G: string(ch), W: 1, S: *op.Style}
+			c++
+			if c >= m.Cols {
+				c, r = 0, r+1
+			}
+		}
+	}
+}
+
+// fixGrid: fixDomain for the older reading (rows laid out from the left over the last cell stored at each column).
+func (m *sim) fixGrid(ops []Op) []Op {
+	for r := range m.grid {
+		for c := 0; c < m.Cols; {
+			w := m.Width(m.grid[r][c])
+			if c+w > m.Cols {
+				cell := CellD{G: "#", W: 1, S: m.grid[r][c].S}
+				op := Op{K: "set", C: c, R: r, Cell: &cell}
+				m.apply(op)
+				ops = append(ops, op)
+				w = 1
+			}
+			c += w
+		}
+	}
+	return ops
 }
 
 // inDomain rewrites a cell operation so that no glyph is set where it does not fit: a set of a glyph
@@ -605,7 +670,7 @@ func GenRandomFor(rng *rand.Rand, nframes int, mask int, alt bool) *Scn {
 				f.Ops = append(f.Ops, op)
 			}
 		}
-		f.Ops = fixDomain(m.Rec, f.Ops)
+		f.Ops = fixDomain(m, m.fixGrid(f.Ops))
 		sc.Frames = append(sc.Frames, f)
 	}
 	return sc
